@@ -33,6 +33,15 @@
 //! another pool therefore fails the whole swap with DifferentWhirlpoolTickArrayAccount even when it is not needed, while an
 //! un-created address of another pool is simply ignored (it is not an array); it never serves as a zeroed proxy because the
 //! proxy is only granted to the PDA derived from this pool and the required start index.
+//!
+//! Sequence part (`c10_seq.rs`, run first): the parts above judge ONE swap from a state reached by limit-terminated set-up
+//! swaps. "Each exactly once, and of no other tick" is also a statement about histories (a tick crossed downwards must not be
+//! applied again until the price has come back up through it), and every state an earlier swap can leave behind is a start
+//! state. The sequence part explores all swap sequences up to a depth bound over a state-relative alphabet (limits exactly on /
+//! one past the next initialized tick, on an uninitialized tick, on the array edge; dust 1..3 in, 1 out — incl. swaps whose
+//! only step moves no price; amounts that run out exactly on the next initialized tick, -1, +1, exact-out too; half / double)
+//! from roots incl. "stopped exactly on T" in both directions, against an abstract model that carries the set of ticks at or
+//! below the position through the history, in lock-step over two array encodings with rotating account packagings.
 #![allow(dead_code)]
 use crate::decode;
 use crate::refmodel::{MAX_SQRT_PRICE, MAX_TICK, MIN_SQRT_PRICE, MIN_TICK};
@@ -52,6 +61,9 @@ const E_SEQ_INDEX: u32 = 6038; // TickArraySequenceInvalidIndex
 const E_FOREIGN: u32 = 6056; // DifferentWhirlpoolTickArrayAccount
 const E_PARTIAL: u32 = 6057; // PartialFillError
 const BIG: u64 = 1 << 60;
+
+#[path = "c10_seq.rs"]
+mod seq;
 
 // ------------------------------------------------------------------------------------------------
 // worlds
@@ -1333,16 +1345,23 @@ pub fn run(ctx: &Ctx) -> Report {
     let mut total = Stats::default();
     let mut per_world = serde_json::Map::new();
     let stop = AtomicBool::new(false);
-    let hard = ctx.budget_s.min(ctx.pick(24.0, 470.0));
+    // sequence part first (histories of swaps against the abstract traversal model, c10_seq.rs)
+    let sq = seq::run(ctx, ctx.pick(9.0, 330.0));
+    for (k, d, c) in sq.viol.iter().cloned() {
+        r.violation(k, d, c);
+    }
+    let seq_failed = !sq.viol.is_empty();
+    let t_main = ctx.elapsed();
+    let hard = (ctx.budget_s - t_main).min(ctx.pick((24.0 - t_main).max(12.0), 470.0));
     // small worlds first; each world may run until its cumulative share of the wall budget is used up (slack is passed on)
     let order: [(&str, f64); 6] = [("splash", 0.02), ("lo64", 0.09), ("hi64", 0.16), ("ts3neg", 0.22), ("ts1", 0.32), ("ts64", 1.0)];
     let all = specs();
     for (wname, share) in order {
         let spec = all.iter().find(|s| s.name == wname).expect("world").clone();
-        if !total.viol.is_empty() {
+        if !total.viol.is_empty() || seq_failed {
             break;
         }
-        let deadline = hard * share;
+        let deadline = t_main + hard * share;
         let w = match std::panic::catch_unwind(std::panic::AssertUnwindSafe(|| build_world(&spec))) {
             Ok(w) => w,
             Err(_) => {
@@ -1400,7 +1419,7 @@ pub fn run(ctx: &Ctx) -> Report {
     r.set("failing_by_design_swaps", total.fail_by_design);
     r.set("worlds", Value::Object(per_world));
     r.set("layouts_skipped_for_time", total.skipped_layouts);
-    r.set("exhaustive", total.skipped_layouts == 0);
+    r.set("exhaustive", total.skipped_layouts == 0 && sq.units_skipped == 0);
     r.guard("successful_swaps", total.ok_swaps);
     r.guard("fail_arrays_do_not_reach", total.fail_beyond);
     r.guard("fail_first_array_missing", total.fail_no_first);
@@ -1417,11 +1436,49 @@ pub fn run(ctx: &Ctx) -> Report {
     r.guard("swaps_crossing_ticks_in_two_or_more_arrays", total.multi_array);
     r.guard("swaps_crossing_slot_0_or_87", total.edge_slot_cross);
     r.guard("swaps_through_zero_liquidity", total.gap_steps);
+    seq_report(&mut r, &sq);
     r.assume("svm-lite faithfully replaces the validator (DESIGN §2.1)");
     r.assume("tick prices are taken from the program's sqrt_price_from_tick_index (decided separately by C09)");
     r.assume("initialized ticks are placed on {first, second, middle, last-1, last usable slot} of three consecutive arrays; other slots are covered by symmetry of the linear scan only");
+    r.assume("sequence part: histories up to the reported depth from the roots {above all ticks, below all layout ticks, stopped exactly on each layout tick upwards / downwards} of the listed seq layouts; deeper histories are not covered");
     r.assume("pools without adaptive fee, SPL-token mints without transfer fee (packaging is independent of both)");
     r
+}
+
+fn seq_report(r: &mut Report, sq: &seq::SeqStats) {
+    r.set("seq_layouts", sq.layouts);
+    r.set("seq_units_layout_x_root", sq.units);
+    r.set("seq_units_skipped_for_time", sq.units_skipped);
+    r.set("seq_states", sq.states);
+    r.set("seq_transitions", sq.transitions);
+    r.set("seq_successful_swaps_validated", sq.ok);
+    r.set("seq_failed_swaps", sq.failed);
+    r.set("seq_ops_not_applicable", sq.not_applicable);
+    r.set("seq_crossings_compared", sq.crossings);
+    r.set("seq_root_swaps", sq.root_swaps);
+    r.set("seq_max_depth", sq.max_depth);
+    r.set("seq_lockstep_comparisons", sq.lockstep);
+    if let Some(s) = sq.sample.clone() {
+        r.sample(s);
+    }
+    r.guard("seq_successful_swaps", sq.ok);
+    r.guard("seq_lockstep_with_dynamic_arrays", sq.lockstep_dynamic);
+    r.guard("seq_lockstep_with_arrays_only_named", sq.lockstep_named);
+    r.guard("seq_fail_limit_beyond_arrays", sq.fail_beyond);
+    r.guard("seq_zero_move_swap_on_tick_crossed_downwards", sq.dust_on_crossed_tick);
+    r.guard("seq_zero_move_swap_on_tick_not_crossed", sq.dust_on_uncrossed_tick);
+    r.guard("seq_zero_move_swaps", sq.zero_move_swaps);
+    r.guard("seq_zero_move_tail_step_after_crossing", sq.zero_move_tail_after_cross);
+    r.guard("seq_arrive_on_tick_by_limit_down", sq.arrive_limit_down);
+    r.guard("seq_arrive_on_tick_by_limit_up", sq.arrive_limit_up);
+    r.guard("seq_arrive_on_tick_by_amount_down", sq.arrive_amount_down);
+    r.guard("seq_arrive_on_tick_by_amount_up", sq.arrive_amount_up);
+    r.guard("seq_tick_recrossed_up_after_down", sq.recross_up_after_down);
+    r.guard("seq_tick_recrossed_down_after_up", sq.recross_down_after_up);
+    r.guard("seq_leave_crossed_tick_downwards_without_recrossing", sq.leave_crossed_tick_downwards);
+    r.guard("seq_exact_out_swaps", sq.exact_out_ok);
+    r.guard("seq_swaps_crossing_two_or_more_ticks", sq.multi_cross);
+    r.guard("seq_swaps_ending_exactly_on_uninitialized_tick", sq.on_uninit_tick);
 }
 
 fn parse_start(s: &str) -> Option<Start> {
@@ -1429,6 +1486,9 @@ fn parse_start(s: &str) -> Option<Start> {
 }
 
 pub fn replay(case: &Value) -> Result<(), String> {
+    if case["part"].as_str() == Some("seq") {
+        return seq::replay(case);
+    }
     let name = case["world"].as_str().ok_or("world")?;
     let spec = specs().into_iter().find(|s| s.name == name).ok_or("unknown world")?;
     let ticks: Vec<i32> = case["ticks"].as_array().ok_or("ticks")?.iter().map(|x| x.as_i64().unwrap_or(0) as i32).collect();
